@@ -275,11 +275,10 @@ def cvx_specs(reps):
         return cvar(0, "hermitian=True", 8**n, 8**n)
 
     out["clone.primal"] = (OC, "primal_problem", PC, [], lambda e: dict(
-        direction="max", objective=ip(e["q_a"], Xc()) if n == 1 else tr(mat(mat(mat(e["pperm"], dagger(e["q_a"])), dagger(e["pperm"])), Xc())),
-        objective_text="<Q, X>" if n == 1 else "Re Tr(P Q^* P^* X)", scalar_result=True, solver_param=False,
+        direction="max", objective=ip(e["q_a"], Xc()), objective_text="<Q, X>", scalar_result=True, solver_param=False,
         constraints=[Cons("eq", ptrace(Xc(), sys_c, dim_c), ident("np.identity", 2**n)), psd(Xc())], ordered=False,
         constraint_text=["Tr_{clone registers} X == I", "X >= 0"]),
-        "optimal_clone primal (n = %d): max <P Q P^*, X> s.t. partial_trace(X, %s, %s) = I, X >= 0" % (n, sys_c, dim_c))
+        "optimal_clone primal (n = %d): max <Q, X> (registers in the order of Q) s.t. partial_trace(X, %s, %s) = I, X >= 0" % (n, sys_c, dim_c))
     out["clone.dual"] = (OC, "dual_problem", PC, [], lambda e: dict(
         direction="min", objective=tr(Y()), objective_text="Tr Y", scalar_result=True, solver_param=False,
         constraints=[Cons("psd", uf("kron", Arr, uf("kron", Arr, ident("np.eye", 2**n), ident("np.eye", 2**n)), Y()), e["q_a"] if n == 1 else mat(mat(e["pperm"], e["q_a"]), dagger(e["pperm"])))], ordered=True,
